@@ -542,6 +542,23 @@ impl Sys {
                         out.push(Op::FaultIterDestroyDrop { w: wu, a, k: k as u8 });
                     }
                 }
+                // closure panics inside the multi-archetype (world-level) forms of the iteration macros: a = 200 + query form
+                if sc.archs.len() > 1 {
+                    for qf in [QF_ANY, QF_WILD] {
+                        let n: usize = (0..NARCH).filter(|a| qform_matches(qf, *a)).map(|a| m.order[a].len()).sum();
+                        for mac in 2..5u8 {
+                            for k in 1..=n {
+                                if mac == 4 {
+                                    for dec in [STEP_CONTINUE, STEP_CONTINUE_DESTROY] {
+                                        out.push(Op::FaultQuery { w: wu, a: 200 + qf, mac, k: k as u8, dec });
+                                    }
+                                } else {
+                                    out.push(Op::FaultQuery { w: wu, a: 200 + qf, mac, k: k as u8, dec: 0 });
+                                }
+                            }
+                        }
+                    }
+                }
                 let total_tracked: usize = sc.archs.iter().map(|&a| m.order[a as usize].len() * tracked_cols(a as usize) as usize).sum();
                 for k in 1..=total_tracked {
                     out.push(Op::FaultClone { w: wu, k: k as u8 });
